@@ -44,7 +44,8 @@ def determinism(props, n=64, seed=0):
     jobs = [{'id': i, 'prop': prop, 'plan': p} for i, p in enumerate(plans)]
     t0 = time.time()
     a = pool.run_jobs(jobs, n_workers=16, timeout=600, hashseed='0')
-    b = pool.run_jobs(jobs, n_workers=5, timeout=600, hashseed='31337')
+    b = pool.run_jobs(jobs, n_workers=5, timeout=600,
+                      hashseed=getattr(mod, 'DET_HASHSEED', '31337'))
     diff = []
     for i, (x, y) in enumerate(zip(a, b)):
       dx = x['result']['digest'] if x and x.get('ok') else ('ERR', (x or {}).get('exc'), (x or {}).get('kind'))
